@@ -513,7 +513,8 @@ def _variants(rng, case):
                 v = _variant(rng, k, src[1])
             vw = src[2]
             if k == "dupwidth" or (k != "dupwidth" and rng.random() < 0.1):
-                vw = src[2] + rng.choice([1, -20, 0.5, 100])
+                d = rng.choice([1, -20, 0.5, 100])
+                vw = src[2] + (d if src[2] + d >= 0 else -d)   # ufo2ft rejects negative advances (ValueError): stay valid
             family.append(("fam%d.%s%d" % (f, k, len(family)), v, vw))
             kinds.append(k)
         for nm, cs, gw in family:
